@@ -59,6 +59,17 @@ PROPS = {
         "nontrivial_key": "den",
         "rule": DEN_RULE,
     },
+    "C02": {
+        "families": ["ctx", "core", "conv"],
+        "must_count": ["req", "look", "cases"],
+        "nontrivial_key": "req",
+        "level": "at every return of every rule invocation in every recorded run TLC evaluates the rewind contract on the observed "
+                 "rewind mode, entry cursor and exit cursor (pointer offset, byte, line, column): required + local failure => unchanged; "
+                 "look-ahead rules never move; success never moves backwards.  Library rules are placed in eight rewinding contexts, "
+                 "with and without actions",
+        "rule": "cases = (rule under test in context | generated grammar) x input x configuration; non-trivial = invocations that "
+                "failed locally while rewind_mode::required was requested (the guard's antecedent), counted by TLC",
+    },
     "C01": {
         "families": ["core"],
         "level": L_DEN + "all depth<=1 grammars over the core operators and atoms plus a seeded sample of deeper, recursive "
